@@ -93,6 +93,9 @@ type FakeAvahi struct {
 	groups    []*fakeGroup
 	browsers  []*fakeBrowser
 	known     map[string]avahi.Service // resolvable services by name
+	holdNext  bool                     // the next ResolveService call blocks until ReleaseResolve
+	holdCh    chan struct{}
+	Holding   bool
 
 	SetupCalls, SetupOK  int
 	BrowserNew, GroupNew int
@@ -226,11 +229,51 @@ func (s *FakeAvahi) ResolveService(iface, protocol int32, name, serviceType, dom
 	if !s.connected {
 		return avahi.Service{}, errNotConnected
 	}
+	if s.holdNext {
+		// a slow D-Bus round trip: the call returns only when the harness lets it
+		s.holdNext = false
+		ch := make(chan struct{})
+		s.holdCh = ch
+		s.Holding = true
+		s.mu.Unlock()
+		<-ch
+		s.mu.Lock()
+		s.Holding = false
+		if !s.connected {
+			return avahi.Service{}, errNotConnected
+		}
+	}
 	svc, ok := s.known[name]
 	if !ok {
 		return avahi.Service{}, errors.New("fake avahi: timeout resolving " + name)
 	}
 	return svc, nil
+}
+
+// HoldNextResolve makes the next ResolveService call block until ReleaseResolve.
+func (s *FakeAvahi) HoldNextResolve() {
+	s.mu.Lock()
+	s.holdNext = true
+	s.mu.Unlock()
+}
+
+// ReleaseResolve lets a held ResolveService call return (and cancels a hold that was not used).
+func (s *FakeAvahi) ReleaseResolve() {
+	s.mu.Lock()
+	ch := s.holdCh
+	s.holdCh = nil
+	s.holdNext = false
+	s.mu.Unlock()
+	if ch != nil {
+		close(ch)
+	}
+}
+
+// IsHolding reports whether a ResolveService call is currently held.
+func (s *FakeAvahi) IsHolding() bool {
+	s.mu.Lock()
+	defer s.mu.Unlock()
+	return s.Holding
 }
 
 // Emit sends a browse result to the live browser, like go-avahi's signal
